@@ -96,6 +96,8 @@ def apply(p, e):
         del C[e[1]].lattice
     elif op == "universe":
         C[e[1]].universe = U[e[2]]
+    elif op == "claim":
+        U[e[1]].claim([C[i] for i in e[2]])
     elif op == "notTruncated":
         C[e[1]].not_truncated = dec(e[2])
     elif op == "fillUniverse":
@@ -682,6 +684,10 @@ def abstract_apply(A, t, e, touched):
     elif op == "universe":
         A["u"][e[1]] = e[2]
         cell_u(e[1])
+    elif op == "claim":
+        for i in e[2]:
+            A["u"][i] = e[1]
+            cell_u(i)
     elif op == "notTruncated":
         A["nt"][e[1]] = dec(e[2])
         cell_u(e[1])
@@ -752,7 +758,7 @@ QUANTITY_OF_OP = {
     "cellNumber": "Cell.number", "surfNumber": "Surface.number", "matNumber": "Material.number", "trNumber": "Transform.number",
     "uniNumber": "Universe.number", "material": "Cell.material", "atomDensity": "Cell.atom_density", "massDensity": "Cell.mass_density",
     "delDensity": "Cell.density(del)", "importance": "Importance.particle", "importanceAll": "Importance.all", "volume": "Cell.volume",
-    "delVolume": "Cell.volume(del)", "lattice": "Cell.lattice", "delLattice": "Cell.lattice(del)", "universe": "Cell.universe",
+    "delVolume": "Cell.volume(del)", "lattice": "Cell.lattice", "delLattice": "Cell.lattice(del)", "universe": "Cell.universe", "claim": "Universe.claim",
     "notTruncated": "Cell.not_truncated", "fillUniverse": "Fill.universe", "fillTransform": "Fill.transform",
     "surfConstants": "Surface.surface_constants", "location": "AxisPlane.location", "radius": "Cylinder.radius",
     "coordinates": "CylinderParAxis.coordinates", "reflecting": "Surface.is_reflecting", "white": "Surface.is_white_boundary",
